@@ -331,6 +331,14 @@ func (dm *DMap) putOnCluster(e *env) error {
 
 	e.fragment = f
 
+	// The writes on a key take effect in the order in which they acquire the fragment's
+	// lock, so the write timestamp is taken here. The timestamp of the env is the arrival
+	// time of the request: a request that arrives first but acquires the lock last would
+	// store the newest value with the oldest timestamp, and every reader that merges the
+	// copies by timestamp (asynchronous replication, read repair, fragment merges) would
+	// prefer the value it has overwritten.
+	e.timestamp = time.Now().UnixNano()
+
 	if err = dm.checkPutConditions(e); err != nil {
 		return err
 	}
